@@ -809,7 +809,8 @@ def shrd_cl(info, a, b):
 
 def shrd(info, a, b, c):
     e= []
-    shifter = c
+    # the count is taken modulo 32, as in shrd_cl / shld
+    shifter = ExprOp('&', c, ExprInt_from(c, 0x1f))
 
     d = ExprOp('|',
                 ExprOp('>>', a, shifter),
